@@ -471,6 +471,30 @@ func runC17(cfg *Config) *Report {
 					}
 				}
 			}
+			// the same question asked for the character: every answer is a character of the alphabet (bound, not a placeholder)
+			{
+				ctx, cancel := context.WithTimeout(context.Background(), tmo)
+				var st *gomini.State
+				if named {
+					st = gomini.NewState(createVarRegex)
+				} else {
+					st = gomini.NewState()
+				}
+				cs := gomini.RunTake(ctx, 4, st, func(ch *rune) gomini.Goal {
+					return gomini.ExistO(func(dr *regex.Regex) gomini.Goal { return regex.SDerivO(re.toGo(), ch, dr) })
+				})
+				cancel()
+				for _, a := range cs {
+					if c, ok := a.(*rune); ok && (c == nil || (*c != 'a' && *c != 'b')) {
+						show := "nil"
+						if c != nil {
+							show = fmt.Sprintf("%q", *c)
+						}
+						rep.violate(i, "generated-character-outside-alphabet", desc, fmt.Sprintf("SDerivO(%s, ?c, ?dr) answers the character %s", re, show))
+						break
+					}
+				}
+			}
 		default: // generation mode: strings of the language
 			desc = fmt.Sprintf("IsMatchO(%s, ?s) via MatchO-style generation, first 3 answers [%s]", re, pol)
 			ctx, cancel := context.WithTimeout(context.Background(), tmo)
@@ -487,7 +511,13 @@ func runC17(cfg *Config) *Report {
 				if sv, ok := a.(*regex.String); ok {
 					str, ground := "", true
 					for p := sv; p != nil; p = p.Next {
-						if p.Value == nil || (*p.Value != 'a' && *p.Value != 'b') {
+						if p.Value != nil && *p.Value != 'a' && *p.Value != 'b' {
+							// the expressions are over {a,b}: every character of a generated string was matched against one of them
+							rep.violate(i, "generated-string-outside-alphabet", desc, fmt.Sprintf("a generated string contains the character %q (after %q): it is not a character of %s, or it was never bound", *p.Value, str, re))
+							ground = false
+							break
+						}
+						if p.Value == nil {
 							ground = false
 							break
 						}
